@@ -68,7 +68,11 @@ def one(job):
 jobs = []
 for kind in ("mutants", "harmless"):
     for patch in sorted(glob.glob(f"{V}/selftest/{kind}/*/*.patch")):
-        if only and os.path.basename(os.path.dirname(patch)) != only:
+        pdir = os.path.basename(os.path.dirname(patch))
+        if only and "/" in only:  # Cxx/<patch name prefix>
+            if pdir != only.split("/")[0] or not os.path.basename(patch).startswith(only.split("/")[1]):
+                continue
+        elif only and pdir != only:
             continue
         jobs.append((len(jobs), kind, patch))
 failures = 0
